@@ -597,6 +597,10 @@ class SArr(object):
             other = asarray(other)
         if _py_isinstance(other, SArr):
             oa, odt = other.a, other.dt
+        elif _py_isinstance(other, (str, bytes)) and self.dt.kind in "SU" and rkind in ("eq", "ne", "cmp"):
+            oa = rnp.empty((), dtype=object)
+            oa[()] = other
+            odt = self.dt
         elif other is None or _py_isinstance(other, (str, bytes, dict)):
             if rkind == "eq":
                 return False
